@@ -23,7 +23,7 @@ MESSAGE = {"undef_symbol": r"unknown identifier: fzundef", "undef_macro": r"unkn
            "unclosed_block": r"expected closing delimiter|unexpected|expected"}
 
 
-def make_fault(rng, klass, macros_with_arg=None):
+def make_fault(rng, klass, macros_with_arg=None, namespaces=None):
     """lines to insert (relative to one slot) and where the offending construct is:
     -> (lines, bad_line_index, bad_col, parts) ; parts = spans (col_lo, col_hi) on the bad line of what the error arms see"""
     r = rng
@@ -39,10 +39,12 @@ def make_fault(rng, klass, macros_with_arg=None):
         shapes += ["%s(@)" % m for m in (macros_with_arg or [])] + ["%s(1 + @)" % m for m in (macros_with_arg or [])]
         sh = r.choice(shapes)
         at = sh.index("@")
-        name = "fzundef"
+        # a name that exists nowhere -- or one that resolves to a NAMESPACE node of the symbol graph, which has no value
+        # either (`segments`, `segments.<name>`, the alias of `.import * as <alias>`)
+        name = r.choice(namespaces) if namespaces and r.random() < 0.4 else "fzundef"
         line = sh.replace("@", name)
         hi = at + len(name) + (4 if sh[at + 1:at + 5] == ".sub" else 0)
-        return [line], 0, at, {"usage": (at, hi)}
+        return [line], 0, at, {"usage": (at, hi), "ident": name}
     if klass == "undef_macro":
         args = r.choice(["", "1", "1, 2"])
         return ["fznomacro(%s)" % args], 0, 0, {"name": (0, 9)}
@@ -101,7 +103,11 @@ def inject(rng, g, executed, klass):
                     yield from lists(n[key])
     in_macro = set(g.cid(l) for _, _, body in g.macros for l in lists(body))
     mwa = [name for name, has_arg, _ in g.macros if has_arg] if (fname == "main.asm" and cont not in in_macro) else []
-    lines, bad_idx, bad_col, parts = make_fault(rng, klass, mwa)
+    ns = ["segments"] + ["segments.%s" % n for n, _, _ in g.segdefs] + ([] if g.segdefs else ["segments.default"])
+    if fname == "main.asm":
+        ns += [n["alias"] for n in c11gen.walk(g.top) if n["k"] == "import" and "alias" in n]
+    lines, bad_idx, bad_col, parts = make_fault(rng, klass, mwa, ns)
+    name = parts.pop("ident", None)
     files = dict(g.files)
     data = files[fname].encode("utf-8")
     # slots are line starts; the end of the main file may have been re-written after the slot was recorded
@@ -120,7 +126,7 @@ def inject(rng, g, executed, klass):
     first_line = (data[:off] + prefix).count(b"\n")
     files[fname] = new.decode("utf-8")
     fault = {"class": klass, "file": fname, "line": first_line + bad_idx, "col": None if bad_col is None else len(indent) + bad_col,
-             "first_line": first_line, "lines": lines,
+             "first_line": first_line, "lines": lines, "name": name,
              "parts": {k: (len(indent) + a, len(indent) + b) for k, (a, b) in parts.items()}}
     if klass == "macro_arity":
         # the definition lives on another line of the main file (top level)
@@ -150,7 +156,8 @@ def matches(fault, d, style):
     f, line, col, msg = d
     if f is None or os.path.basename(f) != fault["file"]:
         return False
-    if not re.search(MESSAGE[fault["class"]], msg):
+    pat = MESSAGE[fault["class"]] if not fault.get("name") else r"unknown identifier: " + re.escape(fault["name"])
+    if not re.search(pat, msg):
         return False
     if fault["class"] == "unclosed_block":
         return line >= fault["line"]           # the opening line, or wherever the closing brace was expected (behind it)
